@@ -138,6 +138,12 @@ Fixpoint parse_fields (schema : list Z) (fs : list (list Z)) : option row :=
   end.
 Definition parse_line (schema : list Z) (l : list Z) : option row := parse_fields schema (split_on 9 l).
 Definition is_comment (l : list Z) : bool := match l with c :: _ => c =? 35 | [] => false end.
+(* the header is the run of '#' lines at the START of the file; a later '#' line is taken for a record *)
+Fixpoint drop_comments (ls : list (list Z)) : list (list Z) :=
+  match ls with
+  | l :: r => if is_comment l then drop_comments r else ls
+  | [] => []
+  end.
 (* FASTA: a header line opens a record, the following lines are concatenated.  A record without any
    sequence line is outside the reader's domain (None). *)
 (* SWITCH: false = the reader as it is (IndexError on a record without sequence lines); true = repaired
@@ -196,7 +202,7 @@ Definition parse_raw (f : fmt) (schema : list Z) (file : list Z) : option (list 
   match f with
   | Delim => all_some (map (parse_line schema) (lines file))
   | Vcf | VcfU => option_map (map (vcf_shift (-1)))
-             (all_some (map (parse_line schema) (filter (fun l => negb (is_comment l)) (lines file))))
+             (all_some (map (parse_line schema) (drop_comments (lines file))))
   | Fasta _ => parse_fasta None (lines file)
   | Fastq => let ls := lines file in parse_fastq (length ls) ls
   end.
